@@ -99,10 +99,11 @@ def coded_noise(n, seed):
 
 # ------------------------------------------------------------------ part rect
 def rect_case(case):
-    """case = (shape_name, sps, Vout, bias, word, seed)"""
+    """case = (shape_name, sps, Vout, bias, word, seed, sweep); sweep='all': SAMPLER sweep over every instant for every
+    container form, 'first': for the first container form only (the waveforms of the other forms are still checked)"""
     from opticomlib.devices import DAC, SAMPLER
     from opticomlib.typing import electrical_signal
-    shape, sps, Vout, bias, word, seed = case
+    shape, sps, Vout, bias, word, seed, sweep = case
     gv_reset(sps=sps, R=1e9)
     rz = shape in RZ_NAMES
     cls = 'rz' if rz else 'nrz'
@@ -143,10 +144,15 @@ def rect_case(case):
         if np.array_equal(sig, ref):
             st['bit_exact_waveforms'] += 1
         # ---- SAMPLER at every instant, on the waveform with a noise vector attached
+        if sweep == 'first' and fi > 0:
+            continue
         noise = coded_noise(L * sps, seed + fi)
         carriers = [(electrical_signal(sig, noise), noise)]
         if fi == 0:
             carriers.append((x, None))            # the DAC output itself (no noise)
+        bits_b = bits.astype(bool)
+        bits_bytes = bits_b.tobytes()
+        n_inside = sps // 2 if rz else sps
         for z, nz in carriers:
             for k in range(sps):
                 y = SAMPLER(z, k)
@@ -156,27 +162,32 @@ def rect_case(case):
                 if ys.shape != want.shape:
                     viol.append((f'sampler:len', f'sps={sps} k={k} len(word)={L}: {ys.shape[0] if ys.ndim else ys.shape} samples, expected {L}'))
                     continue
-                if not np.array_equal(ys, want):
+                if not _same(ys, want):
                     viol.append(('sampler:signal', f'sps={sps} k={k} word={word!r} {shape}: signal {ys.tolist()[:8]} != samples k,k+sps,.. '
                                                    f'{want.tolist()[:8]}'))
+                yn = y.noise
                 if nz is not None:
-                    yn = y.noise
                     wn = nz[idx0 + k]
-                    if yn is None or np.asarray(yn).shape != wn.shape or not np.array_equal(np.asarray(yn), wn):
+                    if yn is None or not _same(np.asarray(yn), wn):
                         viol.append(('sampler:noise', f'sps={sps} k={k} word={word!r}: noise {None if yn is None else np.asarray(yn).tolist()[:6]} '
                                                       f'!= noise samples k,k+sps,.. {wn.tolist()[:6]}'))
-                else:
-                    yn = y.noise
-                    if yn is not None and np.any(np.asarray(yn) != 0):
-                        viol.append(('sampler:noise', f'sps={sps} k={k}: noise appeared from a noise-free input: {np.asarray(yn).tolist()[:6]}'))
-                if k < (sps // 2 if rz else sps):
+                elif yn is not None and np.any(np.asarray(yn) != 0):
+                    viol.append(('sampler:noise', f'sps={sps} k={k}: noise appeared from a noise-free input: {np.asarray(yn).tolist()[:6]}'))
+                if k < n_inside:
                     st['inversions'] += 1
                     got = threshold_bits(ys, V, b)
-                    if got.shape != bits.shape or not np.array_equal(got, bits.astype(bool)):
+                    if got.tobytes() != bits_bytes:
                         viol.append((f'inverse:{cls}:{par(sps)}', f'{shape} sps={sps} Vout={Vout} bias={bias} word={word!r} k={k}: '
                                                                   f'threshold decision {got.astype(int).tolist()} != bits'))
     mixed = ('0' in word) and ('1' in word)
     return res(viol=_dedup(viol), obs=h.hexdigest(), nontrivial=mixed, stats=st)
+
+
+def _same(a, want):
+    """element-wise equality; byte comparison first (a strided copy must be byte-identical), numpy comparison to decide"""
+    if a.dtype == want.dtype and a.shape == want.shape and a.tobytes() == want.tobytes():
+        return True
+    return a.shape == want.shape and bool(np.array_equal(a, want))
 
 
 def _dedup(viol, per_key=3):
@@ -409,6 +420,7 @@ def valid_case(case):
     except (TypeError, ValueError) as e:
         got = type(e).__name__
         n = None
+        tag += f' [{got}: {str(e)[:80]}]'
     klass = 'range' if exp == 'ValueError' else 'type'
     if exp in ('ValueError', 'TypeError'):
         if got == 'ok':
@@ -452,7 +464,7 @@ def run(ctx):
         for sps in sps_rect:
             for (Vout, bias) in amps:
                 for shape in NRZ_NAMES + RZ_NAMES:
-                    cases.append((shape, sps, Vout, bias, word, ctx.seed))
+                    cases.append((shape, sps, Vout, bias, word, ctx.seed, 'all' if sps in SPS_RECT else 'first'))
     cases.sort(key=lambda c: (len(c[4]), c[1], amps.index((c[2], c[3])), (NRZ_NAMES + RZ_NAMES).index(c[0]), c[4]))
     ctx.pmap('rect', rect_case, cases, horizon=120, chunk=64)
 
